@@ -63,11 +63,13 @@ UNITS = [
     # of the invariant language as specification; bounded: small expressions evaluated with Python itself.
     Native("accepted invariants evaluate to a boolean on type-conforming instances", ["C07"], "native.c07:bounded",
            kind="bounded",
-           bound="1 901 invariant expressions over one class with properties str, int, bool, List[str], an enumeration "
-                 "and their Optional forms: all comparisons (== < >=) between properties, constants and len(...); "
+           bound="2 381 invariant expressions over one class with properties str, int, bool, List[str], an enumeration, "
+                 "their Optional forms and a list of items with an optional value: 200 quantified invariants that check "
+                 "items[E1].value for None and use items[E2].value, E1 / E2 from 10 index expressions differing in "
+                 "bracket placement; all comparisons (== < >=) between properties, constants and len(...); "
                  "is None / is not None / not / bare operands; guarded forms (implication, conjunction, wrong guard, "
                  "guard under and/or) x 12 bodies; all(...) over lists; arithmetic.  Accepted ones (by the real type "
-                 "inference, run through the Python generator) are evaluated as Python on all 864 instances from small "
+                 "inference, run through the Python generator) are evaluated as Python on all 1 728 instances from small "
                  "value sets (None only where Optional); exhaustive within the bound", args={}, timeout_s=900),
     # C08 / C10 / C29: run-time behaviour of the generated Python SDK -- decided by executing it, on a list of examples
     Native("behaviour of the generated Python SDK: verification, round trips, traversal", ["C08", "C10", "C29"],
